@@ -15,7 +15,7 @@ import (
 func init() { register("C19", true, checkC19) }
 
 func checkC19(p *Prog, r *Report) {
-	r.Explain("SIZEG: in each NewPHash* the pool Get is dominated by branch conditions implying img != nil, Dx == N and Dy == N with N*N the pool's slice length. BITS: the bit-assembly loop sets bit (W-1)-(idx mod W) of word idx div W (MSB first, row-major) and the DCT flatteners copy row j, column i of the top-left KxK block to K*j+i. ORIGIN: every gray converter addresses the image in image coordinates (loop index + Bounds().Min) while the destination stays 0-based. HAMMING: Distance is OnesCount64 of the XOR of corresponding words, each word once. The numerical clauses (median threshold, agreement of the two implementations within rounding) are run-time arithmetic and are not decided.")
+	r.Explain("SIZEG: in each NewPHash* the pool Get is dominated by branch conditions implying img != nil, Dx == N and Dy == N with N*N the pool's slice length. BITS: the bit-assembly loop sets bit (W-1)-(idx mod W) of word idx div W (MSB first, row-major) and the DCT flatteners copy row j, column i of the top-left KxK block to K*j+i. ORIGIN: every gray converter addresses the image in image coordinates (loop index + Bounds().Min) while the destination stays 0-based. DISPATCH: each fast path of the converter dispatchers is handed the type-asserted image itself, never a part of it (an embedded YCbCr of an NYCbCrA). HAMMING: Distance is OnesCount64 of the XOR of corresponding words, each word once. The numerical clauses (median threshold, agreement of the two implementations within rounding) are run-time arithmetic and are not decided.")
 	r.Trusted("image.Image implementations honour Bounds()", "math/bits.OnesCount64")
 	ruleSizeG(p, r)
 	ruleHamming(p, r)
@@ -24,6 +24,8 @@ func checkC19(p *Prog, r *Report) {
 	ruleSiblings(p, r)
 	ruleFill(p, r)
 	ruleOffs(p, r)
+	ruleConvDispatch(p, r)
+	r.Floor("DISPATCH", 3)
 	r.Floor("FILL", 4)
 	r.Floor("OFFS", 3)
 	r.Floor("SIZEG", 4)
@@ -1507,4 +1509,76 @@ func ruleOffs(p *Prog, r *Report) {
 		// raw planes handed to body-less (assembly) functions are PLANE's business (C20)
 	}
 	r.Extra("offs_sites", n)
+}
+
+// ---- DISPATCH: a fast path converts the image it was selected for ----------------------------------------------
+
+// ruleConvDispatch: the gray-converter dispatchers (functions of the transform packages that type-switch on an
+// image.Image) hand each fast path the asserted value itself. Passing a part of it (the embedded *image.YCbCr of
+// an NYCbCrA, a field) converts a different image than the generic At() path would: planes the outer type adds
+// (alpha) are ignored, so the two implementations and the definition disagree.
+func ruleConvDispatch(p *Prog, r *Report) {
+	hash, err := p.HashEntries()
+	if err != nil {
+		r.Fatal(err.Error())
+		return
+	}
+	for _, f := range p.LibReach(hash) {
+		asserted := map[ssa.Value]bool{}
+		eachInstr(f, func(_ *ssa.BasicBlock, _ int, in ssa.Instruction) {
+			ta, ok := in.(*ssa.TypeAssert)
+			if !ok || ta.X.Type().String() != "image.Image" {
+				return
+			}
+			if ta.CommaOk {
+				for _, rf := range refs(ta) {
+					if ex, ok := rf.(*ssa.Extract); ok && ex.Index == 0 {
+						asserted[ex] = true
+					}
+				}
+			} else {
+				asserted[ta] = true
+			}
+		})
+		if len(asserted) == 0 {
+			continue
+		}
+		eachCall(f, func(site ssa.CallInstruction) {
+			// static callee, or the converter selected through a package-level function variable
+			name := ""
+			if sc := site.Common().StaticCallee(); sc != nil && isLibFn(sc) {
+				name = fnName(sc)
+			} else if g := loadOfGlobal(site.Common().Value); g != nil && g.Pkg != nil && strings.HasPrefix(g.Pkg.Pkg.Path(), modPath) {
+				name = globalName(g)
+			}
+			if name == "" {
+				return
+			}
+			for _, a := range site.Common().Args {
+				if !strings.HasPrefix(a.Type().String(), "*image.") {
+					continue
+				}
+				key := fmt.Sprintf("%s | %s converts the image it was selected for", fnName(f), name)
+				at := p.posStr(instrPos(site))
+				if asserted[a] {
+					r.OK("DISPATCH", key, at, "the asserted value itself is converted")
+					continue
+				}
+				// a part of an asserted value?
+				part := false
+				v := a
+				for i := 0; i < 4; i++ {
+					if fa, ok := v.(*ssa.FieldAddr); ok {
+						part = part || asserted[fa.X]
+						v = fa.X
+					}
+				}
+				if part {
+					r.Bad("DISPATCH", key, at, fmt.Sprintf("the fast path is given %s, a part of the image that was matched: what the outer type adds (an alpha plane) is ignored, unlike the generic path", shortVal(a)))
+				} else {
+					r.Undecided("DISPATCH", key, at, "the image handed to the converter is neither the asserted value nor a part of it")
+				}
+			}
+		})
+	}
 }
